@@ -4,6 +4,7 @@ import (
 	"bytes"
 	"context"
 	"fmt"
+	goat "github.com/avos-io/goat"
 	"sync"
 	"testing"
 
@@ -79,6 +80,8 @@ type C12Case struct {
 	Ser bool     `json:"ser"`
 	// Burst: the whole sequence is written back to back, without waiting for the server to digest each envelope
 	Burst bool `json:"burst,omitempty"`
+	// Stats: the server has a (do-nothing) stats handler installed
+	Stats bool `json:"stats,omitempty"`
 }
 
 func (c C12Case) names() []string {
@@ -93,7 +96,7 @@ func (c C12Case) names() []string {
 func genC12(t *rapid.T) C12Case {
 	al := c12Alphabet()
 	n := rapid.IntRange(1, 40).Draw(t, "len")
-	c := C12Case{Ser: rapid.Bool().Draw(t, "ser"), Burst: rapid.Bool().Draw(t, "burst")}
+	c := C12Case{Ser: rapid.Bool().Draw(t, "ser"), Burst: rapid.Bool().Draw(t, "burst"), Stats: rapid.IntRange(0, 2).Draw(t, "stats") == 0}
 	for i := 0; i < n; i++ {
 		if i > 0 && rapid.IntRange(0, 2).Draw(t, "repeat") == 0 {
 			c.Seq = append(c.Seq, c.Seq[i-1]) // runs of the same envelope fill the one-slot queues
@@ -107,7 +110,7 @@ func genC12(t *rapid.T) C12Case {
 // c12Enum returns the i-th sequence of exactly length n over the alphabet x ids {1,2}.
 func c12Enum(n, i int) C12Case {
 	al := len(c12Alphabet()) * 2
-	c := C12Case{}
+	c := C12Case{Stats: i%2 == 1} // every other enumerated sequence runs against a server with a stats handler
 	for k := 0; k < n; k++ {
 		d := i % al
 		i /= al
@@ -165,7 +168,11 @@ func execC12(t *testing.T, c C12Case) (v Verdict) {
 			}
 			return nil
 		})
-		w := kit.NewWorld(kit.Topo{Kind: "direct", Serialize: c.Ser, Clients: 1, Raw: true}, svc, nil, nil)
+		var sopts []goat.ServerOption
+		if c.Stats {
+			sopts = append(sopts, goat.StatsHandler(nopStats{}))
+		}
+		w := kit.NewWorld(kit.Topo{Kind: "direct", Serialize: c.Ser, Clients: 1, Raw: true}, svc, sopts, nil)
 		raw := w.Links[0].A
 		for _, s := range c.Seq {
 			e := al[s.Shape].Env
